@@ -14,6 +14,7 @@ use crate::rng::{tag, Rng};
 use crate::shapes::{err_class, write_one};
 use shapefile::*;
 use std::collections::BTreeMap;
+use std::convert::TryFrom;
 use std::io::Cursor;
 
 /// What one reading route returned: the dumps of the Ok items, or the failure.
@@ -155,8 +156,17 @@ fn one_case(t: i32, i: usize, ctx: &Ctx, rep: &mut Report, dir: &str) {
     // ---- write (cursors), optionally also by path
     let mut shp = Cursor::new(Vec::new());
     let mut shx = Cursor::new(Vec::new());
+    // writing route: write_shape one by one / the consuming bulk route write_shapes
+    let bulk = i % 6 == 1;
+    rep.count(if bulk { "written_through:write_shapes(bulk)" } else { "written_through:write_shape" }, 1);
     let w = panicmon::catch(|| -> Result<(), Error> {
         let mut w = ShapeWriter::with_shx(&mut shp, &mut shx);
+        if bulk {
+            return for_type!(t, T => {
+                let typed: Vec<T> = shapes.iter().map(|s| T::try_from(crate::shapes::clone_shape(s)).ok().expect("harness: type table")).collect();
+                w.write_shapes(&typed)
+            });
+        }
         for s in &shapes {
             write_one(&mut w, s)?;
         }
